@@ -79,10 +79,15 @@ class H:
         return self.I.getattr(obj, name)
 
     # -- obligations --------------------------------------------------------------------------
-    def ensure(self, clause, formula, **meta):
-        """Obligation: path condition and assumed facts imply `formula`."""
+    def ensure(self, clause, formula, hints=(), **meta):
+        """Obligation: path condition, assumed facts and the given hint instances imply `formula`.
+
+        `hints` must be sound consequences of assumed contracts (instantiations of their quantified parts)."""
         if isinstance(formula, bool):
             formula = z3.BoolVal(formula)
+        hints = [x for x in hints if x is not True]
+        if hints:
+            formula = z3.Implies(z3.And(*[to_bool(x) if not isinstance(x, z3.BoolRef) else x for x in hints]), formula)
         self.obligations.append((clause, formula, meta))
 
     def check(self, clause, ok, text=""):
